@@ -64,6 +64,17 @@ func (rl *Shell) Readline() (string, error) {
 
 	rl.init()
 
+	// If a command panics, the terminal is restored by the deferred calls above
+	// while the panic unwinds, but the cursor would be left in the middle of the
+	// input line: also leave it on a new line below, as when a line is accepted.
+	returning := false
+
+	defer func() {
+		if !returning {
+			rl.Display.AcceptLine()
+		}
+	}()
+
 	// Terminal resize events
 	resize := display.WatchResize(rl.Display)
 	defer close(resize)
@@ -88,6 +99,9 @@ func (rl *Shell) Readline() (string, error) {
 		// the macro engine has fed some keys in bulk when running one.
 		if err := core.WaitAvailableKeys(rl.Keys, rl.Config); err != nil {
 			rl.Display.AcceptLine()
+
+			returning = true
+
 			return string(*rl.line), err
 		}
 
@@ -99,6 +113,8 @@ func (rl *Shell) Readline() (string, error) {
 
 		accepted, line, err := rl.run(false, bind, command)
 		if accepted {
+			returning = true
+
 			return line, err
 		} else if command != nil {
 			continue
@@ -118,6 +134,8 @@ func (rl *Shell) Readline() (string, error) {
 
 		accepted, line, err = rl.run(true, bind, command)
 		if accepted {
+			returning = true
+
 			return line, err
 		}
 
